@@ -51,6 +51,13 @@ Definition mod_op (op : cop) (t : Z) (s : ustring) (o : obj) : bool :=
   | VText x => str_op op x s
   | VNone => false
   end.
+Definition cre_op (op : cop) (t : Z) (s : ustring) (o : obj) : bool :=
+  match ocre o with
+  | VInst x => z_op op x t
+  | VNaive x => z_op op x t
+  | VText x => str_op op x s
+  | VNone => false
+  end.
 Definition type_op (op : cop) (v : ustring) (o : obj) : bool := str_op op (otype o) v.
 Definition oid_op (op : cop) (v : ustring) (o : obj) : bool := str_op op (oid o) v.
 Definition type_ne (v : ustring) (o : obj) : bool := negb (ustr_eqb (otype o) v).
